@@ -128,6 +128,10 @@ def normalise(tree, relpath):
         mapping = {h: w for h, w in zip(have, want) if h != w}
         if len(set(mapping.values())) != len(mapping):
             continue
+        # a renaming replaces names the reference does not know by names the function no longer has; if a "new" name is a reference name
+        # (or a restored name is still in use) the locals were merely bound in another order - that is not a renaming
+        if set(mapping) & set(want) or set(mapping.values()) & set(have):
+            continue
         # the restored names must not capture anything else that occurs in the function
         others = {x.id for x in ast.walk(fn) if isinstance(x, ast.Name)} - set(have)
         a = fn.args
